@@ -65,7 +65,7 @@ class PolarizedRays(RealRays):
             E1 = self.get_output_field(E0)
             # the polarization transmittance scales the scalar intensity,
             # which carries apertures, absorption and simple coatings
-            self.i = self.i * np.sum(np.abs(E1)**2, axis=1)
+            transmittance = np.sum(np.abs(E1)**2, axis=1)
         else:
             # Local x-axis field
             state_x = PolarizationState(is_polarized=True, Ex=1.0, Ey=0.0,
@@ -82,8 +82,12 @@ class PolarizedRays(RealRays):
             # average two orthogonal polarizations to get the mean
             # polarization transmittance and scale the scalar intensity
             # (launch intensity, apertures, absorption, simple coatings) by it
-            self.i = self.i * (np.sum(np.abs(E1_x)**2, axis=1) +
-                               np.sum(np.abs(E1_y)**2, axis=1)) / 2
+            transmittance = (np.sum(np.abs(E1_x)**2, axis=1) +
+                             np.sum(np.abs(E1_y)**2, axis=1)) / 2
+
+        # rays that were blocked or lost carry no energy; their polarization
+        # matrix may be undefined (nan), and 0 * nan is nan
+        self.i = np.where(self.i == 0, 0.0, self.i * transmittance)
 
     def update(self, jones_matrix: np.ndarray = None):
         """
